@@ -14,6 +14,7 @@ class ChoiceRNG:
         self.weighted = weighted
         self.p_records = []  # (n, size, p-vector as float64 numpy)
         self.uniform_menu = None  # callable(size) -> list of candidate arrays
+        self.max_enumerated = None  # after this many choice() calls the most probable index is returned
 
     def choice(self, a, size=None, replace=True, p=None, **kw):
         n = int(a) if np.ndim(a) == 0 else len(a)
@@ -30,6 +31,9 @@ class ChoiceRNG:
                 raise ValueError("probabilities contain NaN or do not sum to a positive number")
             # default option 0 = the most probable index (ties: lowest index)
             order = sorted(range(n), key=lambda i: (-pv[i], i))
+            if self.max_enumerated is not None and len(self.p_records) > self.max_enumerated:
+                idx.append(order[0])
+                continue
             pick = self.ctx.choose(order, weights=[pv[i] for i in order] if w is not None else None,
                                    label=f"resample{len(self.p_records)}[{j}]")
             idx.append(pick)
